@@ -222,6 +222,9 @@ def run(ctx):
                         why = "slice length is %s, array length is %s (%s)" % (ln, m.group(1), w)
                 ctx.oblige("C08|unwrap|%s" % A.desc(node)[-70:], good, "unwrap can panic: %s" % why, cfg=cfg, where=H.line(node))
         ctx.extra.setdefault("slice_obligations", {})[cfg] = n_ob
+        if ctx.tier == "thorough" and cfg == "k0":
+            from .clippyxref import cross_reference
+            cross_reference(ctx, [n.get("sp") for n, _ in A.points] + [x.get("sp") for x in H.walk(fn["body"]) if x.get("k") in ("binary", "cast")], files=["src/ctap1.rs"])
         # arithmetic: the only addition is 65 + (u8 as usize)
         adds = [x for x in H.walk(fn["body"]) if x.get("k") == "binary" and x["op"] in ("+", "-", "*")]
         for x in adds:
